@@ -62,7 +62,8 @@ class C10(PropBase):
         g = Gen(rng, big=w.init["big"], bad_text=w.init.get("bad_text", 0.0))
         x = rng.random()
         if se.inbox and x < 0.3:
-            return {"op": "deliver", "to": "x", "n": policy.chunk_len(rng, len(se.inbox), "mixed")}
+            bk, scr = policy.buf_kind(rng)
+            return {"op": "deliver", "to": "x", "n": policy.chunk_len(rng, len(se.inbox), "mixed"), "buf": bk, "scribble": scr}
         if x < 0.38 and not (w.init["lazy_drain"] and rng.random() < 0.7):
             n, _ = policy.drain_amount(rng, 10)
             return {"op": "drain", "who": "x", "n": n}
